@@ -38,6 +38,8 @@ type budget struct {
 	WorldsQuick, WorldsThorough int
 	// C08: size of the static half
 	StaticQuick, StaticThorough int
+	// C05/C06: cases under the harness-owned scheduler
+	SchedQuick, SchedThorough int
 }
 
 func (b budget) StaticQuickOrThorough(tier string) int {
